@@ -623,6 +623,17 @@ func (f *FuncVC) binaryRead(st *State, x *ssa.Call, args []*Val) (*Val, bool) {
 	if !ok {
 		return nil, false
 	}
+	// The model describes the reader by its ghost state (file, rpos).  A
+	// reader that is an object of the verified code itself (*parser.Parser,
+	// whose Read method changes its fields) does not fit: no model then, the
+	// call is an unknown callee.
+	if ri, ok := x.Call.Args[0].(*ssa.MakeInterface); ok {
+		if pt, ok := ri.X.Type().(*types.Pointer); ok {
+			if nt, ok := pt.Elem().(*types.Named); ok && nt.Obj().Pkg() != nil && strings.HasPrefix(nt.Obj().Pkg().Path(), modPath) {
+				return nil, false
+			}
+		}
+	}
 	if sl, ok := di.X.Type().Underlying().(*types.Slice); ok && isByteType(sl.Elem()) {
 		return f.binaryReadBytes(st, x, args, di)
 	}
